@@ -1,6 +1,12 @@
 (* Model of util::SymbolManager<T> (src/util/symbol_manager.rs), of the declaration walk of
    src/asm/decls/symbol.rs (`collect`) and of the context tracking of ResolveIterator::next /
    next_simple (src/asm/resolver/iter.rs: `self.symbol_ctx = &decl.ctx` at every symbol node).
+   The same walk exists a third time in asm::matcher::match_all (src/asm/matcher/mod.rs: `symbol_ctx =
+   &decls.symbols.get(item_ref).ctx` at every symbol node, label or constant), where it gives the static-value
+   analysis of an instruction its context: `node_ctxs` is the model of all three, and C15_lookup / C15_forward
+   speak about every lookup made with `node_ctxs[i]` at node i.  A walk that updates the context at labels only
+   hands the analysis a context that is not `node_ctxs[i]` (tools/props/c15.py, stream `instr`, both static
+   settings, decides this on the implementation).
 
    ItemRef<T>            = nat (index into `decls`); `self.decls[i]` out of range = RPanic.
    HashMap<String, Ref>  = association list `amap`; `get` = first match, `insert` = replace-or-add
